@@ -352,6 +352,15 @@ func Zoo() *SchemaDesc {
 		}
 		panic("bad Node source")
 	})
+	structField(sd, "Node", "grp", Scalar("Int"), func(src interface{}) interface{} {
+		switch v := src.(type) {
+		case *Node:
+			return v.Grp
+		case Node:
+			return v.Grp
+		}
+		panic("bad Node source")
+	})
 	objField(sd, "Node", "name", argSuffix, Scalar("String"), nid, NodeName)
 	objField(sd, "Node", "score", nil, Scalar("Float"), nid, NodeScore)
 	objField(sd, "Node", "flag", nil, Scalar("Boolean"), nid, NodeFlag)
@@ -444,6 +453,9 @@ type Config struct {
 	// Service, when non-empty, builds a federated service schema: named
 	// schema, every object registered with FetchObjectFromKeys.
 	Service string
+	// NodeKeys selects the federated key set this service declares for Node:
+	// "id" = {id}, anything else = {id, grp}.
+	NodeKeys string
 }
 
 // Build registers the zoo with schemabuilder under cfg.
@@ -463,13 +475,26 @@ func RegisterInto(s *schemabuilder.Schema, sd *SchemaDesc, cfg Config, env *Env)
 	if cfg.Service != "" {
 		// shadow objects are rebuilt from their federated keys (all struct
 		// fields) and re-attached to the request's world
-		nodeOpts = append(nodeOpts, schemabuilder.FetchObjectFromKeys(func(ctx context.Context, args struct{ Keys []*Node }) []*Node {
-			out := make([]*Node, len(args.Keys))
-			for i, k := range args.Keys {
-				out[i] = &Node{Id: k.Id, W: worldOf(ctx)}
-			}
-			return out
-		}))
+		// services declare one of two key sets for Node: {id} or {id, grp}; the
+		// shadow object is rebuilt from exactly the keys received
+		switch cfg.NodeKeys {
+		case "id":
+			nodeOpts = append(nodeOpts, schemabuilder.FetchObjectFromKeys(func(ctx context.Context, args struct{ Keys []*NodeKeyID }) []*Node {
+				out := make([]*Node, len(args.Keys))
+				for i, k := range args.Keys {
+					out[i] = &Node{Id: k.Id, Grp: GrpOf(k.Id), W: worldOf(ctx)}
+				}
+				return out
+			}))
+		default:
+			nodeOpts = append(nodeOpts, schemabuilder.FetchObjectFromKeys(func(ctx context.Context, args struct{ Keys []*NodeKeyFull }) []*Node {
+				out := make([]*Node, len(args.Keys))
+				for i, k := range args.Keys {
+					out[i] = &Node{Id: k.Id, Grp: k.Grp, W: worldOf(ctx)}
+				}
+				return out
+			}))
+		}
 		leafOpts = append(leafOpts, schemabuilder.FetchObjectFromKeys(func(ctx context.Context, args struct{ Keys []*Leaf }) []*Leaf {
 			out := make([]*Leaf, len(args.Keys))
 			for i, k := range args.Keys {
